@@ -628,3 +628,139 @@ int active_code2(int a)
    return a + 2;
 }
 '''
+
+
+# ---------------------------------------------------------------------------------------------
+# hand-written hosts: every shape a code-modifying pass looks for, repeated in every nesting context in which the parser's
+# bookkeeping differs (plain function body; body inside parentheses - lambda / block / statement expression as a call argument;
+# body inside a preprocessor branch; member function of a class in a namespace)
+
+C_SHAPES = '''
+   switch (k & 3)
+   {
+   case 1:
+   {
+      int y = k * 2;
+      sink(y);
+      r = y;
+      break;
+   }
+   case 2:
+   {
+      int y = k + 40;
+      sink(y);
+      r = y + 1;
+      break;
+   }
+   default:
+   {
+      r = -1;
+      break;
+   }
+   }
+   switch (r & 1)
+   {
+   case 0: { r += 1; }
+      break;
+   case 1: { r += 2; break; }
+   }
+   if (k > 1) { if (k > 2) r++; } else { r--; }
+   if (k > 3) { r += 2; } else if (k > 4) { r += 3; } else { r += 4; }
+   if (k > 5) r += 5; else r += 6;
+   if (k > 6) { int t = k; sink(t); }
+   if (k > 7)
+   {
+      for (k = 0; k < 3; k++)
+         if (r > k) r -= k;
+   }
+   else
+      r ^= 1;
+   while (1) { if (++r > 50) break; }
+   for (;;) { if (--r < 0) break; }
+   do { r += 2; } while (r < 4);
+   for (k = 0; k < 3; k++) { r += k; }
+   while (k-- > 0) r++;
+   { int t = 3; r += t; }
+   {
+      unsigned short int us = 1; long int li = 2; unsigned u = 3; short ss = 4; long unsigned lu = 5;
+      enum { LA, LB = 5, LC, };
+      r += (int)us + (int)li + (int)u + ss + (int)lu + LB;;
+   }
+'''
+
+JAVA_SHAPES = '''
+      switch (k & 3)
+      {
+      case 1:
+      {
+         int y = k * 2;
+         sink(y);
+         r = y;
+         break;
+      }
+      case 2:
+      {
+         int y = k + 40;
+         sink(y);
+         r = y + 1;
+         break;
+      }
+      default:
+      {
+         r = -1;
+         break;
+      }
+      }
+      switch (r & 1)
+      {
+      case 0: { r += 1; }
+         break;
+      case 1: { r += 2; break; }
+      }
+      if (k > 1) { if (k > 2) r++; } else { r--; }
+      if (k > 3) { r += 2; } else if (k > 4) { r += 3; } else { r += 4; }
+      if (k > 5) r += 5; else r += 6;
+      if (k > 6) { int t = k; sink(t); }
+      if (k > 7)
+      {
+         for (k = 0; k < 3; k++)
+            if (r > k) r -= k;
+      }
+      else
+         r ^= 1;
+      while (true) { if (++r > 50) break; }
+      for (;;) { if (--r < 0) break; }
+      do { r += 2; } while (r < 4);
+      for (k = 0; k < 3; k++) { r += k; }
+      while (k-- > 0) r++;
+      { int t = 3; r += t; }
+'''
+
+
+def mod_hosts():
+    """-> [(name, lang, bytes)]; all compile (checked by the monitors that use them: a host the compiler rejects is a harness error)."""
+    S = C_SHAPES
+    c_head = '#include <stdbool.h>\nextern void sink(int v);\nstatic int wrap(int a, int b) { return a + b; }\n'
+    hosts = []
+    hosts.append(('c-plain', 'C', c_head + 'int host(int k)\n{\n   int r = 0;\n' + S + '   return (r);\n}\n'))
+    hosts.append(('c-stmt-expr-arg', 'C', c_head + 'int host(int k)\n{\n   return wrap(({\n   int r = 0;\n' + S + '   r;\n}), k);\n}\n'))
+    hosts.append(('c-pp-branch', 'C', c_head + 'int host(int k)\n{\n   int r = 0;\n#if 1\n' + S + '#else\n   r = 2;\n#endif\n   return (r);\n}\n'))
+    cpp_head = ('extern void sink(int v);\ntemplate<typename F> static int apply(F f, int k) { return f(k); }\n')
+    hosts.append(('cpp-plain', 'CPP', cpp_head + 'int host(int k)\n{\n   int r = 0;\n' + S + '   return (r);\n}\n'))
+    hosts.append(('cpp-lambda-arg', 'CPP', cpp_head + 'int host(int q)\n{\n   return apply([&](int k) {\n   int r = q;\n' + S + '   return (r);\n}, q);\n}\n'))
+    hosts.append(('cpp-method-in-ns', 'CPP', cpp_head + 'namespace n1 {\nclass K\n{\npublic:\n   int host(int k) const\n   {\n   int r = 0;\n' + S +
+                  '   return (r);\n   }\n};\n}\nint use(int k) { n1::K o; return o.host(k); }\n'))
+    hosts.append(('cpp-lambda-in-init', 'CPP', cpp_head + 'int host(int q)\n{\n   int out = apply([=](int k) -> int {\n   int r = q;\n' + S + '   return (r);\n}, q + 1);\n   return out;\n}\n'))
+    oc_head = ('#include <stdbool.h>\nextern void sink(int v);\nstatic int apply_blk(int (^b)(int), int k) { return b(k); }\n'
+               '__attribute__((objc_root_class))\n@interface Root\n+ (id)alloc;\n- (id)init;\n@end\n@interface Host : Root\n- (int)run:(int)k;\n- (int)runBlock:(int)q;\n@end\n')
+    hosts.append(('oc-method-and-block-arg', 'OC', oc_head + '@implementation Host\n- (int)run:(int)k\n{\n   int r = 0;\n' + S + '   return (r);\n}\n'
+                  '- (int)runBlock:(int)q\n{\n   return apply_blk(^(int k) {\n   int r = q;\n' + S + '   return (r);\n}, q);\n}\n@end\n'))
+    J = JAVA_SHAPES
+    hosts.append(('java-plain-lambda-anon', 'JAVA',
+                  'interface Fn { int call(int n); }\n'
+                  'public class Gen\n{\n   static void sink(int v) { }\n   static int apply(Fn f, int k) { return f.call(k); }\n'
+                  '   static int host(int k)\n   {\n      int r = 0;\n' + J + '      return (r);\n   }\n'
+                  '   static int hostLambda(int q)\n   {\n      return apply((k0) -> {\n      int k = k0;\n      int r = 0;\n' + J + '      return (r);\n      }, q);\n   }\n'
+                  '   static int hostAnon(int q)\n   {\n      return apply(new Fn() {\n         public int call(int k0)\n         {\n      int k = k0;\n      int r = 0;\n' + J +
+                  '      return (r);\n         }\n      }, q);\n   }\n}\n'))
+    return [(n, l, t.encode()) for n, l, t in hosts]
